@@ -67,6 +67,7 @@ def run_cell(args):
                 # obligations refuted before the path became infeasible still count
                 _replay_candidates(res, seen_labels, ctx, mod, orc, hname, cell, otime)
                 res["classes"] |= ctx.classes
+                res["unknowns"] += len(ctx.unknowns)
                 continue
             res["classes"] |= ctx.classes
             res["unknowns"] += len(ctx.unknowns)
